@@ -136,6 +136,12 @@ def attrs(draw, cr=True, prefixes=(), max_attrs=4,
             # tag soup: a digit-led "attribute" (the lexer ends the tag
             # there; whatever follows is character data)
             name = draw(st.sampled_from(list("0129"))) + name
+        elif soup and out and out[-1][2] in ("dq", "sq") and \
+                draw(st.integers(0, 9)) == 0:
+            # tag soup: an attribute glued to the closing quote of the one
+            # before it (<img src="a.png"alt="x" title="t">) - the tag ends
+            # at the quote, the rest is character data
+            space = ""
         if form == "none":
             eql = eqr = ""
         else:
@@ -149,8 +155,8 @@ def attrs(draw, cr=True, prefixes=(), max_attrs=4,
     # after a digit-led name the rest of the tag is character data: a '<'
     # in a later value would start markup of its own
     souped = False
-    for a in out:
-        if souped or a[1][:1].isdigit():
+    for i, a in enumerate(out):
+        if souped or a[1][:1].isdigit() or (i and a[0] == ""):
             souped = True
             a[5] = a[5].replace("<", "(")
     return out
